@@ -808,4 +808,19 @@ func TestC14(t *testing.T) {
 			return
 		}
 	}
+	// alone, last: two overlapping Close calls with the first one held at its log line
+	if ev.Shard() <= 1 {
+		var f *ev.Failure
+		ok := t.Run("close_overlap", func(t *testing.T) {
+			f = runCloseOverlap(0)
+			rec.Case(ev.Hash([]any{"close_overlap"}), true, "kind_close_overlap")
+			if f != nil {
+				rec.Violation("extra", Extra{Kind: "close_overlap"}, f.Msg)
+				t.Errorf("%s", f.Msg)
+			}
+		})
+		if !ok && f == nil {
+			rec.Violation("race", Extra{Kind: "close_overlap"}, "the race detector reported a data race in the overlapping-Close scenario (the report is in the check's output)")
+		}
+	}
 }
